@@ -144,12 +144,29 @@ def numeric_law(chk, cases, rng, npts):
     return worst, done
 
 
+PER_KEY_CLAUSES = ("amplitude-keys", "zero-amplitudes-only-where-no-transition-exists", "amplitude-is-coherent-sum-of-its-chains", "intensity-component-is-partial-sum")
+
+
+def unequal_identical(trs) -> bool:
+    """some transition gives different projections to two final-state particles with the same name"""
+    for tr in trs:
+        leaves = [e for e in tr["edges"] if len(e["set"]) == 1]
+        by = {}
+        for e in leaves:
+            by.setdefault(e["part"], set()).add(e["hel2"])
+        if any(len(v) > 1 for v in by.values()):
+            return True
+    return False
+
+
 def run(chk, replay=None):
     tier = chk.tier
     rng = random.Random(chk.seed)
     chk.assume("TLC/SANY", "projection of chain terms in vf/ampl.py", "sympy CG/WignerD numeric evaluation (numeric law only)",
                "a transition's chain is identified through the model component named by the library's name generator")
-    real = ampl_run.REAL_THOROUGH if tier == "thorough" else ampl_run.REAL_QUICK
+    # identical final-state particles WITH spin on different nodes (two photons): the symmetrisation has to respect which particle
+    # carries which projection
+    real = (ampl_run.REAL_THOROUGH if tier == "thorough" else ampl_run.REAL_QUICK) + [("psi2s_ggjpsi", "helicity")]
     cases = ampl_run.build_cases(chk, n_synth=600 if tier == "thorough" else 36, configs=configs, real=real, which={"formula"}, budget_s=900 if tier == "thorough" else 40)
     for label, reaction, cfg, model, rec in cases:
         if model is None:
@@ -168,8 +185,12 @@ def run(chk, replay=None):
     for clause, rid, info in tv.rejects:
         label = byid[rid][0] if rid in byid else "?"
         kind = label.split(":")[0]
-        chk.violation(f"{clause}:{'canonical' if byid[rid][4]['canonical'] else 'helicity'}",
-                      f"{clause} rejected for {label} cfg={byid[rid][2]}: {str(info)[:700]}", {"label": label, "cfg": byid[rid][2], "record": byid[rid][4]})
+        sig = f"{clause}:{'canonical' if byid[rid][4]['canonical'] else 'helicity'}"
+        if clause in PER_KEY_CLAUSES and unequal_identical(byid[rid][4]["trs"]):
+            # the per-key clauses on a reaction whose identical spinful particles carry unequal projections: identified by the reaction
+            # (one signature for the four per-key clauses: they describe one grouping)
+            sig = f"coherent-sum-mixes-distinct-projections-of-identical-particles:{label.split(':')[1] if kind == 'real' else ampl.digest(byid[rid][4]['trs'])}:{'canonical' if byid[rid][4]['canonical'] else 'helicity'}"
+        chk.violation(sig, f"{clause} rejected for {label} cfg={byid[rid][2]}: {str(info)[:700]}", {"label": label, "cfg": byid[rid][2], "record": byid[rid][4]})
     for d in drifts:
         chk.spec_drift(f"{d[1]} ({byid[d[2]][0] if d[2] in byid else d[2]})")
     # the assigned lineshape is part of the formula: every node of every chain carries the builder's
@@ -213,7 +234,12 @@ def run(chk, replay=None):
     if tvr.stats.get("coherent-groups-with-several-members", 0) == 0 or tvr.stats.get("topology-groups", 0) <= len(rrecs):
         raise Machinery(f"vacuous: no coherent group with several members / no reaction with several topologies ({tvr.stats})")
     for clause, rid, info in tvr.rejects:
-        chk.violation(f"reaction-operator:{clause}", f"{clause} rejected for {rlabel.get(rid)}: {str(info)[:500]}", {"label": rlabel.get(rid)})
+        lbl = rlabel.get(rid) or "?"
+        if clause == "spin-projection-groups-are-the-classes-of-the-outer-states" and unequal_identical(rrecs[rid]["trs"]):
+            sig = f"coherent-sum-mixes-distinct-projections-of-identical-particles:{lbl.split(':')[1] if lbl.startswith('real') else ampl.digest(rrecs[rid]['trs'])}:{'canonical' if 'canonical' in lbl else 'helicity'}"
+        else:
+            sig = f"reaction-operator:{clause}"
+        chk.violation(sig, f"{clause} rejected for {lbl}: {str(info)[:500]}", {"label": lbl})
     worst, n = numeric_law(chk, cases, rng, 12 if tier == "thorough" else 4)
     chk.part("numeric_law", models=n, worst_rel=worst)
     # binding demonstration: flip one observed D index -> must be rejected
